@@ -172,7 +172,7 @@ def roles_run(ctx):
 
 CHECKS = {
     "C02": {
-        "lean_modules": ["P3R.Props.C02", "P3R.Props.C02Run", "P3R.Props.C02Denote", "P3R.Lemmas.BuilderSound"],
+        "lean_modules": ["P3R.Props.C02", "P3R.Props.C02Run", "P3R.Props.C02Denote", "P3R.Props.C02Complete", "P3R.Lemmas.BuilderSound"],
         "theorems": ["P3R.C02.dedup_rewrite_terminates", "P3R.C02.setW_get", "P3R.C02.setW_mono",
                      "P3R.C02.execAlu_sound",
                      # whole-run soundness: run = ok => every Const/ALU relation holds on the returned witness
@@ -180,6 +180,8 @@ CHECKS = {
                      "P3R.C02.run_ok_sat",
                      # value preservation: run ok => every expression's slot holds its mathematical denotation
                      "P3R.C02.nodeRel_denote", "P3R.C02.run_values_denote", "P3R.C02.compile_ops_eq",
+                     # converse: on a satisfying input the run can only fail structurally (never a conflict / division by zero)
+                     "P3R.C02.execAlu_good", "P3R.C02.execOp_good", "P3R.C02.execAll_good", "P3R.C02.run_satisfying_no_value_error",
                      # builder rule soundness w.r.t. the denotation of Model/SymCompile (proved for C13, same builder model)
                      "P3R.binv_init", "P3R.defineConst_sound", "P3R.add_sound", "P3R.sub_sound", "P3R.mul_sound",
                      "P3R.mulAdd_sound"],
